@@ -24,6 +24,59 @@ def run(rep):
     d = vlib.Differential(rep, [h], env=env, spec_ops=SPEC_OPS, name='h_message')
     impl, model, spec = d.run(reqs)
     d.conclude('message.c (parseattachments, message_get_body) <-> Model/Mime.lean')
+    # attachment conditions and attachment blocks through the real evaluator: "some part" / "every part", errors never match
+    import base64 as b64m
+    import evalcommon as ec
+    h2, env2 = ec.harness(sc)
+    ecases, expect = [], []
+    for _ in range(400 if rep.tier == 'quick' else 20000):
+        nparts = rng.randrange(1, 5)
+        parts, truth = [], []
+        for i in range(nparts):
+            k = rng.random()
+            if k < 0.25:
+                parts.append(b'Content-Type: application/octet-stream\nContent-Transfer-Encoding: base64\n\n%%%not-base64%%%\n'); truth.append('err')
+            elif k < 0.6:
+                body = b'needle %d' % i
+                if rng.random() < 0.5:
+                    parts.append(b'Content-Type: text/plain\nContent-Transfer-Encoding: base64\n\n' + b64m.b64encode(body) + b'\n')
+                else:
+                    parts.append(b'Content-Type: text/plain\n\n' + body + b'\n')
+                truth.append('yes')
+            else:
+                parts.append(b'Content-Type: text/html\n\nnothing here\n'); truth.append('no')
+        msg = b'To: a\nContent-Type: multipart/mixed; boundary="b"\n\n' + b''.join(b'--b\n' + p for p in parts) + b'--b--\n'
+        if rng.random() < 0.5:
+            conf = 'maildir "~/md" {\n\tmatch attachment body /needle/ move "~/dst/a"\n}\n'
+            # some part: parts in order, the first match or error decides
+            want = 'NOMATCH'
+            for t in truth:
+                if t == 'err':
+                    want = 'ERROR'; break
+                if t == 'yes':
+                    want = 'MATCH'; break
+        else:
+            conf = 'maildir "~/md" {\n\tmatch all attachment { match body /needle/ exec "true" } move "~/dst/a"\n}\n'
+            # every part is visited; an error anywhere is an error; match iff some part matched
+            want = 'ERROR' if 'err' in truth else ('MATCH' if 'yes' in truth else 'NOMATCH')
+        ecases.append(ec.Case(conf, [('needle', '')], msg))
+        expect.append((want, truth))
+    ec.run_cases(h2, env2, ecases, want_spec=False)
+    ebad = []
+    for c, (want, truth) in zip(ecases, expect):
+        if c.note == 'fault':
+            rep.finding('sanitizer-fault', dict(c.readable(), implementation=c.impl))
+            continue
+        got = (c.impl or '').split(' ')[0]
+        if got != want:
+            rep.finding('unlisted', dict(c.readable(), parts=truth, implementation=got, specification=want,
+                                         what='attachment condition/block: an undecodable part must be an error and never count as a match; '
+                                              'a condition holds iff some part matches, a block visits every part'))
+        elif c.model is not None and ec.impl_core(c) != c.model:
+            ebad.append(c)
+    if ebad and not rep.violations:
+        rep.violation({'obligation': 'correspondence expr_eval_attachment(_block) <-> Model/Eval.lean', 'disagreements': len(ebad),
+                       'examples': [dict(c.readable(), implementation=ec.impl_core(c), model=c.model) for c in ebad[:4]]}, False)
     vlib.lean_conclude(rep)
     nparts = {}
     for r, i in zip(reqs, impl):
